@@ -140,6 +140,11 @@ def end_like(ending, value, exc, code):
         return value
     if ending == 'raise':
         raise build_exc(exc)
+    if ending == 'raise_from':
+        try:
+            {}['inner']
+        except KeyError as ie:
+            raise build_exc(exc) from ie
     if ending == 'raise_base':
         raise build_exc('KeyboardInterrupt')
     if ending == 'raise_multiarg':
@@ -171,6 +176,9 @@ def proc_target(spec, conn):
 
     for i in range(spec.get('log_lines', 0)):
         logging.getLogger('c12.child').info('line %d', i)
+    if spec.get('slow_ms'):
+        conn.send('running')
+        time.sleep(spec['slow_ms'] / 1000.0)
     if spec['kill'] != 'none':
         if spec['phase'] == 'during':
             conn.send('running')
@@ -202,8 +210,33 @@ def process_case(spec):
     p.start()
     res = {'records': []}
     kill = spec['kill']
+    if spec.get('slow_ms') or (kill != 'none' and spec['phase'] == 'during' and spec.get('probe_running')):
+        # the target is running (it said so and now sleeps): the accessors must say "not finished yet"
+        if parent_conn.poll(20):
+            parent_conn.recv()
+            running = []
+            running.append(('done', p.done()))
+            running.append(('is_alive', p.is_alive()))
+            for name, f in (('result', p.result), ('exception', p.exception)):
+                t0 = time.monotonic()
+                try:
+                    f(0.15)
+                    running.append((name, 'returned', time.monotonic() - t0))
+                except MpTimeoutError:
+                    running.append((name, 'mp_timeout', time.monotonic() - t0))
+                except BaseException as e:
+                    running.append((name, type(e).__name__, time.monotonic() - t0))
+            t0 = time.monotonic()
+            d, nd = mmp.wait([p], timeout=0.15)
+            running.append(('wait', 'not_done' if p in nd else 'done', time.monotonic() - t0))
+            t0 = time.monotonic()
+            r = p.join(0.1)
+            running.append(('join', repr(r), time.monotonic() - t0))
+            res['running'] = running
+            if kill != 'none' and spec['phase'] == 'during':
+                res['handshake_done'] = True
     if kill != 'none':
-        if spec['phase'] in ('during', 'after_result'):
+        if spec['phase'] in ('during', 'after_result') and not res.get('handshake_done'):
             if parent_conn.poll(20):
                 parent_conn.recv()
             else:
